@@ -628,8 +628,10 @@ func (lr *LakeRun) apply(op HOp, hop *string) (err error) {
 		if err == nil {
 			for _, id := range gone {
 				lr.Deleted[id] = true
-				if tip.Objs[id] {
-					lr.fail(lr.Tag+":vacuum-removed-live-object", fmt.Sprintf("vacuum of %s removed object %s which the branch tip still references", op.Branch, id), lr.replay(nil), "only unreferenced objects vacuumed", id.String())
+				for bn, ob := range lr.Branches {
+					if ob.Tip().Objs[id] {
+						lr.fail(lr.Tag+":vacuum-removed-live-object", fmt.Sprintf("vacuum of %s removed object %s which the tip of branch %s still references", op.Branch, id, bn), lr.replay(nil), "only objects no branch tip references are vacuumed", id.String())
+					}
 				}
 			}
 		}
@@ -871,6 +873,13 @@ func commonAncestorSpec(a, b *SpecBranch) *SpecCommit {
 func (lr *LakeRun) CheckBranch(name string) {
 	b := lr.Branches[name]
 	tip := b.Tip()
+	for id := range tip.Objs {
+		if lr.Deleted[id] {
+			// the branch was pointed (branch-from-old-commit, revert) at data that had
+			// been explicitly vacuumed, or the vacuum was already reported above
+			return
+		}
+	}
 	want := lr.branchVals(tip)
 	got, err := lr.QueryZ(fmt.Sprintf("from %s@%s", lr.PoolName, name))
 	if err != nil {
